@@ -524,9 +524,17 @@ Inductive ImplOutcome :=
 
 Inductive Case :=
 | CBuild (input : list pair) (out : ImplOutcome)
+| CBuildGen (pieces : list (nat * Z * Z * Z * Z)) (panic_in_from_mappings : bool)   (* a build that panicked *)
 | CRead4 (t : T4) (lookups : list (Z * option Z)) (iter : list pair)
 | CRead12 (g : list (Z * Z * Z)) (lookups : list (Z * option Z)) (limits : option (Z * Z)) (iter : list pair)
 | CVar14 (sels : list Sel) (lookups : list (Z * Z * option (option Z))).
+
+(* large inputs are described by generator pieces (count, first char, char step, first gid, gid step)
+   instead of a literal list (a literal of tens of thousands of pairs overflows coqc's stack) *)
+Definition gen_piece (p : nat * Z * Z * Z * Z) : list pair :=
+  let '(n, c0, cs, g0, gs) := p in
+  map (fun i => (c0 + cs * Z.of_nat i, g0 + gs * Z.of_nat i)) (seq 0 n).
+Definition gen_input (pieces : list (nat * Z * Z * Z * Z)) : list pair := flat_map gen_piece pieces.
 
 Definition dump_panics (f4 : option T4) : bool :=
   match f4 with Some t => match cmap4_compute_length t with None => true | Some _ => false end | None => false end.
@@ -546,6 +554,12 @@ Definition check_case (c : Case) : bool :=
           && lookups_ok (charmap_map (records_of f4 f12)) cl
           && plist_eqb (charmap_mappings (records_of f4 f12) ng) ci
       | _, _ => false
+      end
+  | CBuildGen pieces in_fm =>
+      match from_mappings (gen_input pieces) with
+      | Panic => in_fm
+      | Built f4 _ => negb in_fm && dump_panics f4
+      | Conflict _ _ _ => false
       end
   | CRead4 t lookups iter => lookups_ok (cmap4_map t) lookups && plist_eqb (cmap4_iter t) iter
   | CRead12 g lookups limits iter => lookups_ok (cmap12_map g) lookups && plist_eqb (cmap12_iter limits g) iter
